@@ -511,6 +511,24 @@ class Parser:
             if len(items) == 1 and not trailing:
                 return items[0]
             return ("tuple", items)
+        if self.at("["):
+            self.next()
+            items = []
+            if self.at("]"):
+                self.next()
+                return ("veclit", items)
+            first = self.expr()
+            if self.accept(";"):
+                n = self.expr()
+                self.expect("]")
+                return ("arrayrep", first, n)
+            items.append(first)
+            while self.accept(","):
+                if self.at("]"):
+                    break
+                items.append(self.expr())
+            self.expect("]")
+            return ("veclit", items)
         if self.at("{"):
             return self.block()
         if self.at("if"):
@@ -917,6 +935,7 @@ class Source:
 # model's convention for lengths and indices: 64-bit overflow of an index is not modelled, subtraction
 # is checked).
 INT_TYPES = {"u32": ("N", "u32"), "usize": ("nat", "usize"), "u64": ("N", "u64"), "u8": ("N", "u8"), "char": ("N", "u32")}
+# i32 is Z; only constants and their cast to usize are supported so far
 
 
 def T(name, *args):
@@ -936,6 +955,10 @@ def is_nat(ty):
 
 def is_list(ty):
     return ty is not None and ty[0] == "ty" and ty[1] in ("slice", "Vec")
+
+
+def is_str(ty):
+    return ty is not None and ty[0] == "ty" and ty[1] in ("str", "String")
 
 
 def var(name):
@@ -1011,6 +1034,10 @@ class Ctx:
             return "(result %s %s)" % (self.coq_ty(args[0]), self.coq_ty(args[1]))
         if name in ("slice", "Vec"):
             return "(list %s)" % self.coq_ty(args[0])
+        if name in ("str", "String"):
+            return "(list N)"
+        if name == "i32":
+            return "Z"
         if name == "Ordering":
             return "comparison"
         if self.struct(name) is not None or self.enum(name) is not None:
@@ -1051,7 +1078,15 @@ def has_kind(e, kinds):
 def has_exit(e):
     """`?` / `return` (exit from the function), or break / continue / assignment (an effect on the
     enclosing loop or on a variable): the continuation must then be threaded through the branches"""
-    return has_kind(e, ("try", "return", "break", "continue", "assign", "mutcall"))
+    if has_kind(e, ("try", "return", "break", "continue", "assign")):
+        return True
+    found = []
+
+    def f(x):
+        if x[0] == "mcall" and x[2] in MUTATING_METHODS:
+            found.append(x)
+    walk(e, f)
+    return bool(found)
 
 
 def assigned_vars(e):
@@ -1114,7 +1149,7 @@ def let_bound(e):
     return out
 
 
-MUTATING_METHODS = {"push"}          # plus the &mut self methods of the translated set (added per module)
+MUTATING_METHODS = {"push", "extend_from_slice"}          # plus the &mut self methods of the translated set (added per module)
 
 
 class FnTranslator:
@@ -1305,6 +1340,12 @@ class FnTranslator:
                         return rt[2][0]
                     if m in ("is_some", "is_none"):
                         return T("bool")
+                if is_str(rt) and m == "chars":
+                    return T("slice", T("char"))
+                if rt[1] == "char" and m == "to_digit":
+                    return T("Option", T("u32"))
+                if rt[1] == "char" and m == "is_ascii_hexdigit":
+                    return T("bool")
                 if is_list(rt):
                     if m == "len":
                         return T("usize")
@@ -1350,6 +1391,9 @@ class FnTranslator:
                 t = self.ty_of(x, env)
                 if t:
                     return T("Vec", t)
+        if k == "arrayrep":
+            t = self.ty_of(e[1], env)
+            return T("slice", t) if t else None
         return None
 
     def lookup_fn(self, path):
@@ -1464,6 +1508,8 @@ class FnTranslator:
                 return {"Less": "Lt", "Equal": "Eq", "Greater": "Gt"}[p[1]]
             if p[0] in ("u32",) and p[1] == "MAX":
                 return "U32MAX"
+            if p == ["i32", "MAX"]:
+                return "2147483647%Z"
             ev = self.enum_variant(p)
             if ev and not ev[2]:
                 return "%s_%s" % (ev[0], ev[1])
@@ -1506,6 +1552,17 @@ class FnTranslator:
                 if a is None or b is None:
                     return None
                 return "(%s %s %s)%%nat" % (a, op, b)
+            if op in ("|", "&") and (ta is None or (is_int(ta) and not is_nat(ta))):
+                a = self.pure(e[2], env, ta)
+                b = self.pure(e[3], env, ta)
+                if a is None or b is None:
+                    return None
+                return "(N.%s %s %s)" % ("lor" if op == "|" else "land", a, b)
+            if op == "<<" and e[3][0] == "int" and e[3][1] < 32 and (self.ty_of(e[2], env) or T(self.c.default_int))[1] in ("u32", "char"):
+                a = self.pure(e[2], env, T("u32"))
+                if a is None:
+                    return None
+                return "(u32_shl %s %d)" % (a, e[3][1])
             if is_nat(ta) and op == "/" and e[3][0] == "int" and e[3][1] != 0:
                 a = self.pure(e[2], env, ta)
                 if a is None:
@@ -1561,6 +1618,14 @@ class FnTranslator:
                 return None
             if m in ("iter", "clone", "to_vec", "copied", "cloned") and not e[3]:
                 return self.pure(e[1], env)
+            if m == "chars" and is_str(rt):
+                return self.pure(e[1], env)
+            if rt is not None and rt[0] == "ty" and rt[1] == "char" and m == "to_digit" and len(e[3]) == 1 and e[3][0] == ("int", 16, None):
+                r0 = self.pure(e[1], env)
+                return None if r0 is None else "(char_to_digit16 %s)" % r0
+            if rt is not None and rt[0] == "ty" and rt[1] == "char" and m == "is_ascii_hexdigit":
+                r0 = self.pure(e[1], env)
+                return None if r0 is None else "(char_is_hexdigit %s)" % r0
             r = self.pure(e[1], env)
             if r is None:
                 return None
@@ -1628,12 +1693,23 @@ class FnTranslator:
             if any(a is None for a in args):
                 return None
             return "[" + "; ".join(args) + "]"
+        if k == "arrayrep":
+            wt = want[2][0] if is_list(want) else None
+            a = self.pure(e[1], env, wt)
+            n = self.pure(e[2], env, T("usize"))
+            if a is None or n is None:
+                return None
+            return "(repeat %s %s)" % (a, n)
         if k == "cast":
             a = self.pure(e[1], env)
             if a is None:
                 return None
             src = self.ty_of(e[1], env)
             dst = e[2]
+            if src is not None and src[0] == "ty" and src[1] == "i32" and is_nat(dst):
+                if e[1][0] == "path" and self.c.const(e[1][1][-1]):
+                    return "(Z.to_nat %s)" % a          # a non-negative constant
+                raise Unsupported("cast of a computed i32 to usize")
             if is_int(dst) and (src is None or is_int(src)):
                 s_ = (src[1] if src else self.c.default_int)
                 width = {"u8": 8, "u32": 32, "usize": 64, "u64": 64, "char": 32}
@@ -1775,6 +1851,18 @@ class FnTranslator:
             lt = self.ty_of(lhs, env)
             if op != "=":
                 rhs = ("binary", op[:-1], lhs, rhs)
+            if lhs[0] == "index":
+                # a[i] = v on an array / Vec place: None (panic) when i is out of bounds
+                base = lhs[1]
+
+                def after_iv(i_, v):
+                    bterm = self.pure(base, env)
+                    if bterm is None:
+                        raise Unsupported("element assignment through a computed place")
+                    t = self.c.fresh()
+                    root, term = self.place_update(base, t, env)
+                    return "do %s <- list_upd %s %s %s;\nlet %s := %s in\n%s" % (t, bterm, i_, v, var(root), term, k("tt"))
+                return self.tr(lhs[2], env, lambda i_: self.tr(rhs, env, lambda v: after_iv(i_, v), lt), T("usize"))
 
             def after(v):
                 root, term = self.place_update(lhs, v, env)
@@ -1806,6 +1894,14 @@ class FnTranslator:
             info = self.c.fn_info.get((rt[1], m)) if rt and rt[0] == "ty" else None
             if info and info["mutself"]:
                 return self.tr_mutcall(e, env, k, info)
+            if is_list(rt) and m == "extend_from_slice":
+                def after_ext(v):
+                    recv = self.pure(e[1], env)
+                    if recv is None:
+                        raise Unsupported("extend_from_slice on a computed place")
+                    root, term = self.place_update(e[1], "(%s ++ %s)" % (recv, v), env)
+                    return "let %s := %s in\n%s" % (var(root), term, k("tt"))
+                return self.tr(e[3][0], env, after_ext, rt)
             if is_list(rt) and m == "push":
                 def after_push(v):
                     recv = self.pure(e[1], env)
@@ -1865,8 +1961,17 @@ class FnTranslator:
                 raise Unsupported("indexing a value that is not a slice / Vec")
             if e[2][0] == "range":
                 lo, hi = e[2][1], e[2][2]
-                if hi is not None or lo is None:
-                    raise Unsupported("slice range other than [lo..]")
+                if e[2][3]:
+                    raise Unsupported("inclusive slice range")
+                if hi is not None:
+                    lo = lo if lo is not None else ("int", 0, None)
+
+                    def sl2(r, a, b):
+                        t = self.c.fresh()
+                        return "do %s <- slice_range %s %s %s;\n%s" % (t, r, a, b, k(t))
+                    return self.tr(e[1], env, lambda r: self.tr(lo, env, lambda a: self.tr(hi, env, lambda b: sl2(r, a, b), T("usize")), T("usize")))
+                if lo is None:
+                    raise Unsupported("slice range [..]")
 
                 def sl(r, a):
                     return "if Nat.leb %s (length %s) then\n%s\nelse None" % (a, r, k("(skipn %s %s)" % (a, r)))
@@ -2300,6 +2405,8 @@ def eqb_term(ctx, t, a, b):
         return "(Bool.eqb %s %s)" % (a, b)
     if t[0] == "ty" and t[1] == "Option" and is_int(t[2][0]) and not is_nat(t[2][0]):
         return "(match %s, %s with Some x_, Some y_ => x_ =? y_ | None, None => true | _, _ => false end)" % (a, b)
+    if is_list(t) and is_int(t[2][0]):
+        return "(list_eqb %s %s %s)" % ("Nat.eqb" if is_nat(t[2][0]) else "N.eqb", a, b)
     if is_list(t) and t[2][0][0] == "ty" and ctx.struct(t[2][0][1]) is not None:
         return "(list_eqb %s_eqb %s %s)" % (t[2][0][1], a, b)
     if t[0] == "ty" and (ctx.struct(t[1]) is not None or ctx.enum(t[1]) is not None):
@@ -2313,6 +2420,8 @@ def const_value(ctx, name):
         return ty, e[1]
     if e[0] == "cast" and e[1][0] == "int":
         return ty, e[1][1]
+    if e[0] == "path" and e[1] == ["i32", "MAX"]:
+        return ty, 2147483647
     raise Unsupported("constant %s is not an integer literal" % name)
 
 
@@ -2337,6 +2446,15 @@ MODULES = {
         "types": ["CharSet"],
         "consts": ["MAX_CHAR"],
         "functions": [("CharSet", "PartialOrd", "partial_cmp")] + [("CharSet", None, f) for f in CHARSET_FNS],
+    },
+    "LiteralGen": {
+        "files": ["smt_strings.rs"],
+        "types": ["SmtString", "State", "ParsingAutomaton"],
+        "consts": ["MAX_CHAR", "REPLACEMENT_CHAR", "MAX_LENGTH"],
+        "functions": [("SmtString", None, "make"), (None, None, "new_automaton")]
+                     + [("ParsingAutomaton", None, f) for f in ("push", "pending", "consume", "flush_pending", "close_escape_seq",
+                                                                "add_hex", "accept")]
+                     + [(None, None, "parse_smt_literal")],
     },
     "PartitionGen": {
         "files": ["character_sets.rs", "smt_strings.rs", "errors.rs"],
@@ -2368,7 +2486,7 @@ def translate_module(name, repo):
            "Require Import Base GenBase.", "Open Scope N_scope.", ""]
     for cname in cfg["consts"]:
         ty, v = const_value(ctx, cname)
-        out.append("Definition %s : %s := %d." % (cname, ctx.coq_ty(ty), v))
+        out.append("Definition %s : %s := %d%s." % (cname, ctx.coq_ty(ty), v, "%Z" if ctx.coq_ty(ty) == "Z" else ""))
     out += emit_types(ctx, cfg["types"])
     out.append("")
     primary = sources[0]
@@ -2379,6 +2497,8 @@ def translate_module(name, repo):
         params, ret, body, mutself = primary.parse_fn(key)
         impl = key[0]
         coq = (impl + "_" if impl else "fn_") + key[2]
+        if impl and ctx.struct(impl) is not None and any(f == key[2] for f, _t in ctx.struct(impl)):
+            coq += "_fn"                 # a method named like a field: the projection keeps the plain name
         parsed[key] = (params, ret, body, coq, mutself)
         rret = ctx.resolve_self(ret, impl) if impl else ret
         rparams = [(n, ctx.resolve_self(t, impl)) for n, t in params]
